@@ -887,3 +887,45 @@ fn p_ext_struct_walk_lax() {
     kani::cover!(stop.is_some() && w.consumed == 8);
     kani::cover!(w.consumed == 16);
 }
+
+/// C07 (defect D4) bounded: MACsec SecTAG without SCI, unmodified payload, symbolic short length, followed by a VLAN ether type and
+/// 0..=8 further bytes (the VLAN tag names an unknown ether type): a VLAN length error of `PacketHeaders` / `LaxPacketHeaders`
+/// sits at offset 8 (6 byte SecTAG + 2 byte ether type), a MACsec one at offset 0, as `SlicedPacket` reports them
+#[kani::proof]
+#[kani::unwind(5)]
+fn c07_headers_offset_behind_macsec() {
+    let mut b: [u8; 16] = kani::any();
+    let l: usize = kani::any();
+    kani::assume(l >= 8 && l <= 16);
+    b[0] = 0;
+    b[1] &= 0x3f;
+    b[6] = 0x81;
+    b[7] = 0x00;
+    b[10] = 0xff;
+    b[11] = 0xff;
+    let s = &b[..l];
+    let h = PacketHeaders::from_ether_type(EtherType::MACSEC, s);
+    let p = SlicedPacket::from_ether_type(EtherType::MACSEC, s);
+    match (&h, &p) {
+        (Err(err::packet::SliceError::Len(a)), Err(err::packet::SliceError::Len(b))) => {
+            assert!(a.layer_start_offset == b.layer_start_offset && a.layer == b.layer, "PacketHeaders and SlicedPacket locate a length error behind a MACsec header differently");
+            if a.layer == err::Layer::VlanHeader {
+                assert!(a.layer_start_offset == 8, "VLAN length error behind a 6 byte SecTAG + ether type is not at offset 8");
+            }
+            kani::cover!(a.layer == err::Layer::VlanHeader);
+        }
+        (Ok(_), Ok(_)) => {}
+        (Err(_), Err(_)) => {}
+        _ => panic!("verdict differs between struct decoding and slicing"),
+    };
+    let lh = LaxPacketHeaders::from_ether_type(EtherType::MACSEC, s);
+    let lp = LaxSlicedPacket::from_ether_type(EtherType::MACSEC, s);
+    match (&lh.stop_err, &lp.stop_err) {
+        (Some((err::packet::SliceError::Len(a), _)), Some((err::packet::SliceError::Len(b), _))) => {
+            assert!(a.layer_start_offset == b.layer_start_offset && a.layer == b.layer, "LaxPacketHeaders and LaxSlicedPacket locate a stop error behind a MACsec header differently");
+        }
+        (None, None) => {}
+        (Some(_), Some(_)) => {}
+        _ => panic!("lax struct decoding and lax slicing disagree on stopping"),
+    };
+}
